@@ -94,6 +94,7 @@ type Obligation struct {
 	Path      string
 	ExpectSat bool // cover obligations: satisfiable expected
 	Opaque    []string
+	HintKey   string
 	GoalText  string
 
 	// results
@@ -129,6 +130,8 @@ type FnCtx struct {
 	oblSeq  map[string]int
 	assignOrd map[ast.Stmt]string
 	assertSeen map[string]bool
+	hintPass    int
+	provedHints map[string]bool
 }
 
 func (c *FnCtx) fresh(hint, sort string) Term {
